@@ -433,6 +433,77 @@ func checkC17(tier, replay string) int {
 			})
 		}
 	}
+	// Two runs on the same binary that overlap in time. Run A is paused when its disassembler has printed pA bytes (the blocks
+	// read so far are in A's unfinished cache file); run B then starts on the same binary and fails in one of the usual ways,
+	// is killed, or completes; A continues to its end. Schedules: pA x B's behaviour. Afterwards a normal run.
+	{
+		type overlap struct {
+			Overlap bool   `json:"overlap"`
+			PauseAt int    `json:"a_paused_after_bytes"`
+			BKind   string `json:"b_kind"` // complete | cut-exit | kill-profiler-after
+			BP      int    `json:"b_p"`
+		}
+		var os_ []overlap
+		for _, pa := range []int{0, 4096, 8192, 12288, 16384, len(LB)} {
+			os_ = append(os_, overlap{true, pa, "complete", 0})
+			for _, bp := range []int{0, 100, 4096, 8192, len(LB)} {
+				os_ = append(os_, overlap{true, pa, "cut-exit", bp}, overlap{true, pa, "kill-profiler-after", bp})
+			}
+		}
+		if replay != "" {
+			os_ = nil
+			var g struct {
+				Case overlap `json:"case"`
+			}
+			if readJSON(replay, &g) == nil && g.Case.Overlap {
+				os_ = []overlap{g.Case}
+			}
+		}
+		var overlaps int64
+		parallelFor(len(os_), func(i int) {
+			o := os_[i]
+			bin, cache := newBin()
+			defer os.Remove(cache)
+			defer os.Remove(bin)
+			pauseFile := filepath.Join(scratch, fmt.Sprintf("pause-%d-%d", os.Getpid(), atomic.AddInt64(&seq, 1)))
+			defer os.Remove(pauseFile)
+			defer os.Remove(pauseFile + ".reached")
+			aDone := make(chan cmdResult, 1)
+			go func() {
+				aDone <- runProf(bin, big, []string{fmt.Sprintf("FAKE_PAUSE_AT=%d", o.PauseAt), "FAKE_PAUSE_FILE=" + pauseFile})
+			}()
+			// wait until A's disassembler has printed its first part, then give the profiler a moment to take it in
+			for k := 0; k < 500; k++ {
+				if _, err := os.Stat(pauseFile + ".reached"); err == nil {
+					break
+				}
+				time.Sleep(10 * time.Millisecond)
+			}
+			time.Sleep(60 * time.Millisecond)
+			switch o.BKind {
+			case "complete":
+				runProf(bin, big, nil)
+			case "cut-exit":
+				runProf(bin, big, []string{fmt.Sprintf("FAKE_CUT=%d", o.BP), "FAKE_EXIT=1"})
+			case "kill-profiler-after":
+				runProf(bin, big, []string{fmt.Sprintf("FAKE_CUT=%d", o.BP), "FAKE_KILL=parent"})
+			}
+			os.WriteFile(pauseFile, nil, 0o644)
+			ra := <-aDone
+			atomic.AddInt64(&runs, 2)
+			atomic.AddInt64(&overlaps, 1)
+			if ra.Exit == 0 && ra.Stdout != cold[big] {
+				ctx.Violation("C17:overlap:run-A:"+o.BKind, fmt.Sprintf("run A (paused after %d bytes while run B [%s at %d] worked on the same binary) exited 0 with a profile different from the cold one:\n%s", o.PauseAt, o.BKind, o.BP, clip(ra.Stdout, 300)), o)
+			}
+			final := runProf(bin, big, nil)
+			atomic.AddInt64(&runs, 1)
+			if final.Exit == 0 && final.Stdout != cold[big] {
+				cb, _ := os.ReadFile(cache)
+				ctx.Violation("C17:overlap:next-run:"+o.BKind, fmt.Sprintf("after run A (paused after %d bytes) overlapped with run B [%s at %d] on the same binary, the next normal run printed a profile different from the cold one (reused cache: %v, cache file %d bytes, complete one %d):\n%s", o.PauseAt, o.BKind, o.BP, strings.Contains(final.Stderr, "Using cached objdump"), len(cb), len(coldCache[big]), clip(final.Stdout, 300)), o)
+			}
+		})
+		ctx.Cov["overlapping_run_schedules"] = overlaps
+	}
 	ctx.Cov["evaluations"] = runs
 	ctx.Cov["distinct_nontrivial"] = len(hs)
 	ctx.Cov["histories"] = len(hs)
@@ -444,7 +515,7 @@ func checkC17(tier, replay string) int {
 	if straceUnavailable > 0 {
 		ctx.Capped("strace not available: write-level crash points skipped")
 	}
-	ctx.Cov["rule"] = "histories run1(fault)[; run2(fault')]; run(normal) on the real profiler binary with a fake `go` tool: disassembler prints the first p bytes of the listing and exits 1 or is killed (quick: every line boundary, every byte of the first two lines and of the execve site, around every 4096-byte flush boundary of a 20 kB listing; thorough: every byte), tool missing from PATH, the profiler itself killed with SIGKILL after the disassembler produced p bytes (every 1024 bytes of a 20 kB listing), SIGKILL or ENOSPC injected by strace at the N-th write(2) of every thread of the profiler and of its children (N=1..18, counted per thread: log lines, every block of the cache file, the emitted profile, the disassembler's writes), a file size limit L (RLIMIT_FSIZE, standing for a full disk; L around the hash line, around every 4096-byte boundary and around the complete size) that hits whoever writes the cache file, and depth-2 fault sequences at line granularity; oracle: the final normal run prints exactly the cold-cache profile or exits non-zero, and a reused cache file equals the complete one; replacement histories: the binary at the same path is replaced by another one (other architecture; same file with bytes of .text flipped, i.e. identical Go build id), with and without an EIO injected at the N-th read while hashing, and with the disassembler failing for the new binary while the old binary's complete cache file is still there (tool missing; exit 1 after all, half or none of the output; killed): a run that exits 0 must print the new binary's cold profile, and so must the normal run after it; distinct_nontrivial = histories"
+	ctx.Cov["rule"] = "histories run1(fault)[; run2(fault')]; run(normal) on the real profiler binary with a fake `go` tool: disassembler prints the first p bytes of the listing and exits 1 or is killed (quick: every line boundary, every byte of the first two lines and of the execve site, around every 4096-byte flush boundary of a 20 kB listing; thorough: every byte), tool missing from PATH, the profiler itself killed with SIGKILL after the disassembler produced p bytes (every 1024 bytes of a 20 kB listing), SIGKILL or ENOSPC injected by strace at the N-th write(2) of every thread of the profiler and of its children (N=1..18, counted per thread: log lines, every block of the cache file, the emitted profile, the disassembler's writes), a file size limit L (RLIMIT_FSIZE, standing for a full disk; L around the hash line, around every 4096-byte boundary and around the complete size) that hits whoever writes the cache file, and depth-2 fault sequences at line granularity; oracle: the final normal run prints exactly the cold-cache profile or exits non-zero, and a reused cache file equals the complete one; replacement histories: the binary at the same path is replaced by another one (other architecture; same file with bytes of .text flipped, i.e. identical Go build id), with and without an EIO injected at the N-th read while hashing, and with the disassembler failing for the new binary while the old binary's complete cache file is still there (tool missing; exit 1 after all, half or none of the output; killed): a run that exits 0 must print the new binary's cold profile, and so must the normal run after it; overlapping runs: run A on a binary is paused after its disassembler printed pA bytes (6 values), run B on the same binary then completes, fails after q bytes or is killed after q bytes (5 values), A continues, then a normal run - A's own profile and the next run's must be the cold profile or an error; distinct_nontrivial = histories"
 	ctx.Assumptions = []string{"the fake go tool stands for any disassembler failure; the cache path is <home>/.seccomp-profiler/<base>-<sha256(abs)[:10]> as the profiler logs it", "strace injection realises crashes at write granularity"}
 	if replay != "" {
 		return finishReplay(ctx)
